@@ -8,7 +8,6 @@ import (
 	"errors"
 	"fmt"
 	"io"
-	"math"
 	"unicode/utf8"
 
 	"github.com/ohler55/ojg/gen"
@@ -266,11 +265,12 @@ func (t *Tokenizer) tokenizeBuffer(buf []byte, last bool) error {
 				if digitMap[b] != numDigit {
 					break
 				}
-				t.num.I = t.num.I*10 + uint64(b-'0')
-				if math.MaxInt64 < t.num.I {
+				if gen.BigLimit <= t.num.I {
 					t.num.FillBig()
+					t.num.AddDigit(b)
 					break
 				}
+				t.num.I = t.num.I*10 + uint64(b-'0')
 			}
 			if digitMap[b] == numDigit {
 				off++
@@ -344,12 +344,12 @@ func (t *Tokenizer) tokenizeBuffer(buf []byte, last bool) error {
 					break
 				}
 				t.mode = fracMap
-				t.num.Frac = t.num.Frac*10 + uint64(b-'0')
-				t.num.Div *= 10.0
-				if math.MaxInt64 < t.num.Frac {
-					t.num.FillBig()
+				if gen.BigLimit <= t.num.Div {
+					t.num.AddFrac(b)
 					break
 				}
+				t.num.Frac = t.num.Frac*10 + uint64(b-'0')
+				t.num.Div *= 10.0
 			}
 			off += i
 			if digitMap[b] == numDigit {
